@@ -123,7 +123,10 @@ def observe(case):
             # second route: chromosome column with a StringEncoding (the vectorised path)
             try:
                 from bionumpy.encodings.string_encodings import StringEncoding
-                enc = StringEncoding(keys)
+                # label order deliberately differs from the FASTA record order, and only the contigs
+                # that occur are listed (the encoding, not the file order, defines the codes)
+                labels = [k for k in reversed(keys) if k in set(names)]
+                enc = StringEncoding(labels)
                 I2 = Interval(enc.encode(names), [a for n, a, b in iv], [b for n, a, b in iv])
                 r2 = fa.get_interval_sequences(I2)
                 out['fetch_fast'] = [bytes(x.raw()).hex() for x in r2]
